@@ -6,6 +6,7 @@ name (the representation of the services map may list keys in a different order,
 consumer can observe: everything downstream goes through `AMap.sorted`/`AMap.get`).
 -/
 import GontainerModel.Lemmas.Merge
+import GontainerModel.Lemmas.ReadOrder
 namespace GM.C09
 open GM GM.Input
 
@@ -140,6 +141,28 @@ from the built-in defaults; any regrouping of consecutive files gives an equival
 theorem readAll_append (xs ys : List Input) :
     readAll (xs ++ ys) = ys.foldl merge (readAll xs) := by
   simp [readAll, List.foldl_append]
+
+/-- **files are merged in the order of the -i patterns and, within one pattern, in byte-wise order of the cleaned paths**: for
+every world (whatever `Glob`, `Clean` and reading return) the input the run compiles is the left fold of `merge`, from the built-in
+defaults, over the files in that order; a file that cannot be read contributes nothing (and fails the step, C10) -/
+theorem files_read_in_documented_order (w : Runner.World) (ind : String) (i0 : Input) :
+    (Runner.readConfig w ind i0).st = (Runner.filesInOrder w).foldl (Runner.mergeFile w) i0 :=
+  Runner.readConfig_input w ind i0
+
+/-- the read order, spelled out: patterns in the given order; the files of a pattern are its cleaned matches (each as often as it
+was matched) in ascending byte-wise order -/
+theorem read_order_spelled_out (w : Runner.World) :
+    Runner.filesInOrder w = w.patterns.flatMap (fun p => (Runner.patternFiles w p).1) ∧
+    ∀ p ms, w.glob p = .ok ms →
+      (Runner.patternFiles w p).1.Perm (ms.map w.clean) ∧
+      (Runner.patternFiles w p).1.Pairwise (fun a b => AMap.strLe a b = true) :=
+  ⟨rfl, fun p ms h => Runner.patternFiles_sorted w p ms h⟩
+
+/-- the order is byte-wise, not case-insensitive, numeric or by collation: `B` before `a`, `x10` before `x9`, `z` before `é` -/
+theorem byte_order_examples :
+    AMap.strLe "cfg/B.yaml" "cfg/a.yaml" = true ∧ AMap.strLe "cfg/a.yaml" "cfg/B.yaml" = false ∧
+    AMap.strLe "cfg/x10.yaml" "cfg/x9.yaml" = true ∧ AMap.strLe "cfg/z.yaml" "cfg/é.yaml" = true ∧
+    AMap.strLe "cfg/a-b/x.yaml" "cfg/a/x.yaml" = true := by decide
 
 -- non-vacuity
 example : merge { params := [("a", .int 1)] } { params := [("a", .int 2), ("b", .null)] }
